@@ -31,7 +31,9 @@ for pid, commit, text in rows:
             os.makedirs(os.path.join(VERIF, "regress", pid), exist_ok=True)
             for f in glob.glob(os.path.join(d, "replays", pid, "*.bin"))[:2]:
                 base = os.path.basename(f).rsplit("-", 1)[0]        # <harness>-<mode>
-                shutil.copyfile(f, os.path.join(VERIF, "regress", pid, "%s-fix%s-%s" % (base, commit, os.path.basename(f).rsplit("-", 1)[1])))
+                dstf = os.path.join(VERIF, "regress", pid, "%s-fix%s-%s" % (base, commit, os.path.basename(f).rsplit("-", 1)[1]))
+                shutil.copyfile(f, dstf)
+                if os.path.exists(f + ".meta.json"): shutil.copyfile(f + ".meta.json", dstf + ".meta.json")
         ok &= hit
         print("%s %s  %s  %s   [%s]" % (pid, commit, "DETECTED" if hit else "MISSED  ", ",".join(sorted(set(sigs)))[:120], text[:70]))
     finally:
